@@ -340,6 +340,12 @@ def copy_probe(ctx, mon, v):
             if isinstance(v, L.AnsiString):
                 cs.append(('copy()', v.copy()))
             cs.append(('AnsiString(s)', L.AnsiString(v)))
+            if isinstance(v, L.AnsiString):
+                import copy as _copy
+                import pickle as _pickle
+                cs.append(('copy.copy(s)', _copy.copy(v)))
+                cs.append(('copy.deepcopy(s)', _copy.deepcopy(v)))
+                cs.append(('pickle', _pickle.loads(_pickle.dumps(v))))
             o = O.observe(v)
             for name, c in cs:
                 ctx.ev('copy-equal')
